@@ -87,6 +87,16 @@ var c09Addrs = []addrSpec{
 	// other spellings of the loopback name
 	{"/dns/LOCALHOST/tcp/3104/http", false},
 	{"/dns4/localhost./tcp/3104/http", false},
+	// an IPv6 literal with a zone in a DNS component
+	{"/dns6/::1%lo/tcp/3104/http", false},
+	{"/dns/fe80::1%eth0/tcp/80/http", false},
+	// the host is not the first component (libp2p-HTTP takes it from an ip
+	// or dns component wherever it stands)
+	{"/http/ip4/127.0.0.1/tcp/3104", false},
+	{"/tls/ip4/10.0.0.1/tcp/443/http", false},
+	{"/ip4/8.8.8.8/tcp/80/http/ip4/127.0.0.1/tcp/81", false},
+	{"/http/dns4/localhost/tcp/80", false},
+	{"/http/ip4/8.8.4.4/tcp/3104", true},
 }
 
 type c09Sent struct {
